@@ -861,8 +861,7 @@ func ctxSentinel(c *Case) error {
 
 func project(err error, ctxDone error) *Proj {
 	p := &Proj{Panic: -1}
-	info := compose.VerifC13Info(err)
-	p.Found, p.Outermost, p.Typ, p.NodePath, p.StreamPath = info.Found, info.Outermost, info.Typ, info.NodePath, info.StreamPath
+	p.Found, p.Outermost, p.Typ, p.NodePath, p.StreamPath = wbErrInfo(err)
 	for i, t := range isTargets {
 		if i == 3 {
 			t = ctxDone
@@ -882,7 +881,7 @@ func project(err error, ctxDone error) *Proj {
 	if errors.As(err, &c1) {
 		p.As[1] = c1.code
 	}
-	if pi, ok := compose.VerifC13PanicInfo(err); ok {
+	if pi, ok := wbPanicInfo(err); ok {
 		p.Panic = payloadOf(pi) // -2: a panic value the harness did not throw
 	}
 	_, p.Interrupt = compose.ExtractInterruptInfo(err)
